@@ -28,6 +28,8 @@ pub struct Gen {
     /// C18 flavour that keeps non-append WRITEs within the current size (more requests succeed on a
     /// sealed export); the other flavour also sends them beyond the size
     pub gentle: bool,
+    /// killpriv_v2 negotiated: the kill flags are put on requests that fail or that no set-id bit is involved in
+    pub killpriv: bool,
 }
 
 const EXIST: &[&str] = &["f1", "f2", "f3", "d1", "d2", "d3", "g", "ln", "lout_abs", "lout_rel", "lout_dir", "ldang", "hl", "fifo", "nul"];
@@ -82,8 +84,9 @@ impl Gen {
         }
     }
     fn ids(&mut self) -> (u32, u32) {
-        if self.mode != "c18" && self.rng.chance(1, 3) {
-            (1000, 1000)
+        // callers: root, a plain user, and the mixes (root with a foreign group, a user with group 0)
+        if self.mode != "c18" && self.rng.chance(2, 5) {
+            *self.rng.pick(&[(1000u32, 1000u32), (1000, 1000), (0, 1000), (1000, 0), (0, 4242)])
         } else {
             (0, 0)
         }
@@ -91,7 +94,7 @@ impl Gen {
     fn oflags(&mut self, seal: bool) -> i32 {
         let mut f = *self.rng.pick(&[libc::O_RDONLY, libc::O_WRONLY, libc::O_RDWR, libc::O_RDWR]);
         let pa = if seal { 3 } else { 5 };
-        if !self.wb && self.rng.chance(1, pa) {
+        if (!self.wb || seal) && self.rng.chance(1, pa) {
             f |= libc::O_APPEND;
         }
         if self.rng.chance(1, pa) {
@@ -248,7 +251,8 @@ impl Gen {
                 if n >= 0 && self.nodes[n as usize].kind != "reg" {
                     fl |= libc::O_NONBLOCK;
                 }
-                json!({"op": "open", "n": n, "flags": fl})
+                let kill = self.killpriv && n >= 0 && self.nodes[n as usize].kind != "reg";
+                json!({"op": "open", "n": n, "flags": fl, "kill": kill})
             }
             "opendir" => json!({"op": "opendir", "n": self.pick_node(&["dir"]), "flags": libc::O_RDONLY}),
             "release" => {
@@ -270,7 +274,7 @@ impl Gen {
                     (self.handles[h as usize].node as i64, h, self.handles[h as usize].flags)
                 };
                 let mut fl = hfl & !(libc::O_TRUNC | libc::O_CREAT | libc::O_EXCL);
-                if !self.wb && self.rng.chance(1, if seal { 3 } else { 6 }) {
+                if (!self.wb || seal) && self.rng.chance(1, if seal { 3 } else { 6 }) {
                     fl ^= libc::O_APPEND; // the client switched the description with F_SETFL
                 }
                 let off = *self.rng.pick(&[0u64, 0, 1, 2, 4, 7, 8, 9, 12, 13, 20]);
@@ -335,7 +339,8 @@ impl Gen {
                 // several fields at once only on regular files (on others the partial effect of a failing request is not modelled)
                 let n = if which >= 6 { self.pick_node(&["reg"]) } else { n };
                 let h = if which >= 6 { -1 } else { h };
-                json!({"op": "setattr", "n": n, "h": h, "valid": valid, "attr": attr})
+                let kill = self.killpriv && which <= 1 && n >= 0 && self.nodes[n as usize].kind != "reg";
+                json!({"op": "setattr", "n": n, "h": h, "valid": valid, "attr": attr, "kill": kill})
             }
             "readlink" => json!({"op": "readlink", "n": if self.rng.chance(3, 4) { self.pick_node(&["lnk"]) } else { self.pick_node(&[]) }}),
             "statfs" => json!({"op": "statfs", "n": self.pick_node(&[])}),
